@@ -214,9 +214,19 @@ def export_case(case):
             idnt = c16.fitted(cname, fname)
             save_hdf5(h5, idnt, user_rate=rate, user_name="u",
                       user_comment=f"c{i}")
+        rm_old = RateManager(h5)
+        n_before = len(rm_old.ratings)          # fills its cache
+        if case.get("rerate"):
+            # the same curves rated again (same fit, other user rating),
+            # and one more curve added
+            for i, (cname, fname, rate) in enumerate(curves):
+                save_hdf5(h5, c16.fitted(cname, fname),
+                          user_rate=(rate + 3) % 11, user_name="v",
+                          user_comment="again")
         order = load_hdf5(h5)
         ts = os.path.join(d, "ts_out")
-        RateManager(h5).export_training_set(ts)
+        (rm_old if case.get("rerate") else RateManager(h5)) \
+            .export_training_set(ts)
         names = IndentationRater.get_feature_names(which_type="continuous")
         X, Y = IndentationRater.load_training_set(
             path=ts, replace_inf=False, impute_zero_rated_nan=False,
@@ -288,6 +298,7 @@ def cases(tier):
     ]
     for e in exports:
         cs.append({"kind": "export", "curves": e})
+        cs.append({"kind": "export", "curves": e, "rerate": True})
     return cs
 
 
